@@ -40,7 +40,9 @@ def run(prog, rep):
     for key, shape, alts, kind, op in sem.plain_shapes():
         if op in ("EW", "AW"):
             sem.check_shape(rep, "C13-R2", en, shape, alts, key, detail=f"{kind} {op}")
-    rep.floor("C13-R2", 2)
+    for key, shape, alts, kind, op in sem.variant_shapes(ops=("EW", "AW")):
+        sem.check_shape(rep, "C13-R2", en, shape, alts, key, detail=f"{kind} {op} with a special operand")
+    rep.floor("C13-R2", 22)
     # loops of everything the two evaluators are built from
     seen = set()
     for f in prog.lib_fns():
